@@ -1,0 +1,176 @@
+//go:build verif
+
+package actionlint
+
+import (
+	"runtime"
+	"strconv"
+	"strings"
+	"sync"
+	"time"
+
+	"golang.org/x/sync/errgroup"
+)
+
+// Schedule points for the verification framework (property C20). With the build tag "verif" every
+// call appends one event to a global trace and, when a seed is set, sleeps for a pseudo random time
+// derived from the seed before doing so. The position of the calls in process.go is chosen such
+// that the order of the events in the trace is a linearisation of the real execution:
+//   - "spawn", "exit" and "done" are recorded BEFORE wg.Add / sema.Release / wg.Done,
+//   - "acquired", "released", "callback", "egwait-return" and "procwait-return" are recorded
+//     AFTER sema.Acquire / sema.Release / the callback / eg.Wait / wg.Wait returned.
+
+// VerifEvent is one entry of the schedule trace.
+type VerifEvent struct {
+	Kind  string `json:"kind"`
+	Proc  int    `json:"proc"` // small id of the concurrentProcess instance (0 = none)
+	Eg    int    `json:"eg"`   // small id of the errgroup (one per rule instance, 0 = none)
+	Task  int    `json:"task"` // small id of the cmdExecution (0 = none)
+	G     int    `json:"g"`    // id of the goroutine that passed the schedule point
+	Cmd   string `json:"cmd,omitempty"`
+	Args  string `json:"args,omitempty"`
+	Stdin string `json:"stdin,omitempty"`
+	// Outcome of cmdExecution.run for "exit": "out", "terminated", "empty", "other"
+	Outcome string `json:"outcome,omitempty"`
+	Stdout  string `json:"stdout,omitempty"`
+	// Err is set for "callback" and "egwait-return": the function returned a non-nil error
+	Err bool `json:"err,omitempty"`
+}
+
+var verifTrace struct {
+	mu     sync.Mutex
+	on     bool
+	events []VerifEvent
+	ids    map[interface{}]int
+	seed   uint64
+	maxUs  uint64
+	ctr    uint64
+}
+
+// VerifTraceStart clears the trace and enables recording. Delays of up to maxDelayMicros are
+// injected at every schedule point when maxDelayMicros > 0.
+func VerifTraceStart(seed uint64, maxDelayMicros int) {
+	verifTrace.mu.Lock()
+	defer verifTrace.mu.Unlock()
+	verifTrace.on = true
+	verifTrace.events = nil
+	verifTrace.ids = map[interface{}]int{}
+	verifTrace.seed = seed
+	verifTrace.maxUs = uint64(maxDelayMicros)
+	verifTrace.ctr = 0
+}
+
+// VerifTraceMark appends an event of the caller (for example "returned") to the trace.
+func VerifTraceMark(kind string) {
+	verifTrace.mu.Lock()
+	defer verifTrace.mu.Unlock()
+	if verifTrace.on {
+		verifTrace.events = append(verifTrace.events, VerifEvent{Kind: kind})
+	}
+}
+
+// VerifTraceSnapshot returns a copy of the events recorded so far.
+func VerifTraceSnapshot() []VerifEvent {
+	verifTrace.mu.Lock()
+	defer verifTrace.mu.Unlock()
+	return append([]VerifEvent(nil), verifTrace.events...)
+}
+
+// VerifTraceStop disables recording.
+func VerifTraceStop() {
+	verifTrace.mu.Lock()
+	defer verifTrace.mu.Unlock()
+	verifTrace.on = false
+}
+
+func verifID(k interface{}) int {
+	if id, ok := verifTrace.ids[k]; ok {
+		return id
+	}
+	id := len(verifTrace.ids) + 1
+	verifTrace.ids[k] = id
+	return id
+}
+
+func verifDelay() {
+	verifTrace.mu.Lock()
+	on, max := verifTrace.on, verifTrace.maxUs
+	verifTrace.ctr++
+	z := verifTrace.seed + verifTrace.ctr*0x9E3779B97F4A7C15
+	verifTrace.mu.Unlock()
+	if !on || max == 0 {
+		return
+	}
+	z = (z ^ (z >> 30)) * 0xBF58476D1CE4E5B9
+	z = (z ^ (z >> 27)) * 0x94D049BB133111EB
+	z ^= z >> 31
+	// one point in four does not sleep at all, the others sleep up to max microseconds
+	if z&3 == 0 {
+		return
+	}
+	time.Sleep(time.Duration((z>>2)%(max+1)) * time.Microsecond)
+}
+
+// verifGoroutineID parses the id of the calling goroutine out of its stack header. It is used
+// only to group the events of one Linter.check call (the visitor runs on one goroutine).
+func verifGoroutineID() int {
+	var buf [64]byte
+	n := runtime.Stack(buf[:], false)
+	f := strings.Fields(string(buf[:n]))
+	if len(f) >= 2 {
+		if id, err := strconv.Atoi(f[1]); err == nil {
+			return id
+		}
+	}
+	return 0
+}
+
+func verifRecord(ev VerifEvent, proc *concurrentProcess, eg *errgroup.Group, exec *cmdExecution) {
+	verifDelay()
+	ev.G = verifGoroutineID()
+	verifTrace.mu.Lock()
+	defer verifTrace.mu.Unlock()
+	if !verifTrace.on {
+		return
+	}
+	if proc != nil {
+		ev.Proc = verifID(proc)
+	}
+	if eg != nil {
+		ev.Eg = verifID(eg)
+	}
+	if exec != nil {
+		ev.Task = verifID(exec)
+		if ev.Kind == "spawn" {
+			ev.Cmd = exec.cmd
+			ev.Args = strings.Join(exec.args, " ")
+			ev.Stdin = exec.stdin
+		}
+	}
+	verifTrace.events = append(verifTrace.events, ev)
+}
+
+func verifPoint(kind string, proc *concurrentProcess, eg *errgroup.Group, exec *cmdExecution) {
+	verifRecord(VerifEvent{Kind: kind}, proc, eg, exec)
+}
+
+func verifExit(proc *concurrentProcess, eg *errgroup.Group, exec *cmdExecution, stdout []byte, err error) {
+	ev := VerifEvent{Kind: "exit", Outcome: "out", Stdout: string(stdout)}
+	if err != nil {
+		msg := err.Error()
+		switch {
+		case strings.Contains(msg, " was terminated. stderr: "):
+			ev.Outcome = "terminated"
+		case strings.Contains(msg, " but stdout was empty. stderr: "):
+			ev.Outcome = "empty"
+		default:
+			ev.Outcome = "other"
+		}
+	}
+	verifRecord(ev, proc, eg, exec)
+}
+
+func verifRet(err error, kind string, proc *concurrentProcess, eg *errgroup.Group, exec *cmdExecution) error {
+	verifRecord(VerifEvent{Kind: kind, Err: err != nil}, proc, eg, exec)
+	return err
+}
